@@ -5,6 +5,7 @@ package main
 // Generators for C10. Everything is drawn from the run's Rng.
 
 import (
+	"encoding/json"
 	"fmt"
 	"sort"
 	"strconv"
@@ -790,20 +791,122 @@ func c10GenResolveScn(r *Rng) *c10Scn {
 	if len(xfs) == 0 {
 		xfs = []c10Xf{c10GenXf(r, in)}
 	}
-	return &c10Scn{Kind: "resolve", Input: c10Enc(in), Xfs: xfs}
+	s := &c10Scn{Kind: "resolve", Input: c10Enc(in), Xfs: xfs}
+	if r.Chance(1, 3) {
+		s.Warm = c10GenWarm(r, in, xfs)
+	}
+	return s
+}
+
+// c10GenWarm draws 1-2 calls related to (in, xfs) that run before it: the same input through
+// other transforms of the same types (another pattern, group, pair value, literal, multiplier ...),
+// or the same transforms on another input.
+func c10GenWarm(r *Rng, in any, xfs []c10Xf) []c10WarmCall {
+	var out []c10WarmCall
+	for k, n := 0, r.Range(1, 2); k < n; k++ {
+		if r.Bool() {
+			other := c10GenVal(r, 1)
+			if _, isStr := in.(string); isStr && r.Chance(2, 3) {
+				other = Pick(r, c10Strings)
+			}
+			out = append(out, c10WarmCall{Input: c10Enc(other), Xfs: c10CloneXfs(xfs)})
+			continue
+		}
+		var w []c10Xf
+		for _, t := range xfs {
+			if r.Chance(3, 4) {
+				w = append(w, c10MutateXf(r, t))
+				continue
+			}
+			v := c10GenXf(r, in)
+			for try := 0; try < 6 && v.Type != t.Type; try++ {
+				v = c10GenXf(r, in)
+			}
+			w = append(w, v)
+		}
+		out = append(out, c10WarmCall{Input: c10Enc(in), Xfs: w})
+	}
+	return out
+}
+
+// c10MutateXf: the same transform with ONE parameter changed (another expression or group,
+// another trim string / conversion / format, other values under the same map keys, other results
+// for the same patterns, another multiplier or bound, another target type).
+func c10MutateXf(r *Rng, t c10Xf) c10Xf {
+	v := c10CloneXfs([]c10Xf{t})[0]
+	switch {
+	case v.Type == "string" && v.String != nil:
+		s := v.String
+		switch {
+		case s.Regexp != nil:
+			if r.Bool() {
+				s.Regexp.Match = Pick(r, c10Regexps)
+			} else {
+				s.Regexp.Group = c10P(int64(r.Intn(3)))
+			}
+		case s.Trim != nil:
+			s.Trim = c10P(Pick(r, []string{"", "a", "abc", "foo-", "-bar", "prefix-", "-suffix", "Hello", "eu-", "x", "1"}))
+		case s.Convert != nil:
+			s.Convert = c10P(Pick(r, c10StrConverts[:9]))
+		case s.Fmt != nil:
+			s.Fmt = c10P(Pick(r, c10Fmts))
+		case s.Join != nil:
+			s.Join = c10P(Pick(r, []string{"", ",", "-", ", ", "/"}))
+		}
+	case v.Type == "map" && v.Map != nil:
+		for i := range v.Map.Pairs {
+			v.Map.Pairs[i].V = c10GenRaw(r)
+		}
+	case v.Type == "match" && v.Match != nil:
+		for i := range v.Match.Patterns {
+			if r.Bool() {
+				v.Match.Patterns[i].Result = c10GenRaw(r)
+			} else if v.Match.Patterns[i].Literal != nil {
+				v.Match.Patterns[i].Literal = c10P(Pick(r, c10Strings))
+			} else if v.Match.Patterns[i].Regexp != nil {
+				v.Match.Patterns[i].Regexp = c10P(Pick(r, c10Regexps))
+			}
+		}
+		if r.Chance(1, 3) {
+			v.Match.FallbackValue = c10GenRaw(r)
+		}
+	case v.Type == "math" && v.Math != nil:
+		x := c10P(Pick(r, []int64{0, 1, -1, 2, 3, 10, -7, 1000}))
+		switch {
+		case v.Math.Multiply != nil:
+			v.Math.Multiply = x
+		case v.Math.ClampMin != nil:
+			v.Math.ClampMin = x
+		case v.Math.ClampMax != nil:
+			v.Math.ClampMax = x
+		}
+	case v.Type == "convert" && v.Convert != nil:
+		v.Convert.ToType = Pick(r, []string{"string", "bool", "int", "int64", "float64"})
+	}
+	return v
+}
+
+func c10CloneXfs(xfs []c10Xf) []c10Xf {
+	var out []c10Xf
+	if err := json.Unmarshal([]byte(mustJSON(xfs)), &out); err != nil {
+		panic(err)
+	}
+	return out
 }
 
 // c10Gen draws one scenario.
 func c10Gen(r *Rng, tier string) *c10Scn {
 	switch x := r.Intn(100); {
-	case x < 50:
+	case x < 46:
 		return c10GenPatchScn(r)
-	case x < 80:
+	case x < 74:
 		return c10GenResolveScn(r)
-	case x < 90:
+	case x < 82:
 		return c10GenRenderScn(r)
-	default:
+	case x < 91:
 		return c10GenComposeScn(r)
+	default:
+		return c10GenSeqScn(r)
 	}
 }
 
